@@ -5,12 +5,15 @@ from ..templates import *
 M = "delaney2d::"
 EXPLANATION = (
     "Decided (thin): the geometry predicates are functions of the sign of curvature(ds): is_euclidean returns curvature(ds).is_zero(), "
-    "is_hyperbolic returns curvature(ds).is_negative(), and every non-false return of is_spherical is dominated by "
-    "curvature(ds).is_positive(); the bad-orbifold exclusion has the stated table shape: the cone list is the branching numbers > 1 of the "
-    "orbit types of oriented_cover(ds), one cone -> false, two cones -> equal orders, otherwise true. curvature() itself sums (2 or 1)/v over "
-    "orbit_types_2d(ds) and subtracts size() (shape: every term is Rational64::new(if loopless {2} else {1}, v)). NOT decided: the "
-    "Gauss-Bonnet identity with the orbifold symbol, invariance under renumbering/dual, multiplication by the sheet number under covers, "
-    "correctness of orbit_types_2d and orbifold_symbol. This is the weakest claim in the set.")
+    "is_hyperbolic returns curvature(ds).is_negative(), and every non-false return of is_spherical is dominated by curvature(ds).is_positive(); "
+    "the bad-orbifold exclusion has the stated table shape: the cone list is the branching numbers > 1 of the orbit types of oriented_cover(ds), "
+    "one cone -> false, two cones -> equal orders, otherwise true. curvature() itself sums (2 or 1)/v over orbit_types_2d(ds) and subtracts "
+    "size() (shape: every term is Rational64::new(if loopless {2} else {1}, v)). Also decided (rounds 3-5): an orbit is loopless iff no chamber "
+    "of it is fixed by either of its two operations (test at every chamber, both indices); the Euler characteristic is size + #orbits(01, 02, "
+    "12) - (3*size + #loops(0, 1, 2))/2 and the symbol gets (2 - chi)/2 handles or 2 - chi cross-caps with chi = euler + #boundary components "
+    "(expressions evaluated on samples); a degree is printed bare only if it is at most 9. NOT decided: the Gauss-Bonnet identity between the "
+    "two code paths as such, boundary tracing (trace_boundary), invariance under renumbering/dual, multiplication by the sheet number under "
+    "covers.")
 TRUSTED = ["rustc MIR lowering", "num_traits Zero/Signed sign tests on Rational64"]
 ASSUMPTIONS = ["complete 2D D-symbol (asserted by curvature())"]
 
